@@ -338,3 +338,34 @@ func harnessC14TwoPaths() {
 	}
 	verif_assert(n >= 1, "C14/genuine-announcement-does-not-renew-route")
 }
+
+// C13 on the full-table replay: routes learned at one and at two hops plus a
+// local route are replayed to a new peer; for every replayed route the metric the
+// receiver will store (wire + 1) equals the length of the replayed path, for every
+// kind of route (origin metric 0).
+func harnessC13Replay() {
+	f, snd, rm := fNew(0, []identity.AgentID{fID(0)})
+	b, c, d := fID(0), fID(2), fID(1)
+	gb := c06Group(b, 'b', 0, 1)
+	gc := c06Group(c, 'c', 1, 2) // forwarded once by b: wire metric 1
+	f.HandleRouteAdvertise(b, b, "", 3, gb, &protocol.EncryptedData{Data: protocol.EncodePath([]identity.AgentID{b})}, []identity.AgentID{b})
+	f.HandleRouteAdvertise(b, c, "", 5, gc, &protocol.EncryptedData{Data: protocol.EncodePath([]identity.AgentID{b, c})}, []identity.AgentID{c, b})
+	rm.AddLocalRoute(&net.IPNet{IP: net.IP{10, 'l', 0, 0}, Mask: net.CIDRMask(24, 32)}, 0)
+	f.sender.(*fSender).peers = []identity.AgentID{b, d}
+	snd.log = nil
+	f.SendFullTable(d)
+	verif_reach("C13/replay")
+	n := 0
+	for _, s := range snd.log {
+		adv, err := protocol.DecodeRouteAdvertise(s.f.Payload)
+		verif_assert(err == nil, "C13/replayed-group-does-not-decode")
+		if err != nil {
+			return
+		}
+		for _, r := range adv.Routes {
+			n++
+			verif_assert(int(r.Metric)+1 == len(adv.Path), "C13/replayed-metric-is-not-the-hop-count")
+		}
+	}
+	verif_assert(n >= 11, "C13/replay-incomplete")
+}
